@@ -173,6 +173,12 @@ class Param():
                 complete_name = '%s.%s' % (group, name)
                 self.request_param_update(complete_name)
 
+        # With an empty TOC there is nothing to wait for
+        if self._check_if_all_updated() and not self.is_updated:
+            self.is_updated = True
+            self._initialized.set()
+            self.all_updated.call()
+
     def _check_if_all_updated(self):
         """Check if all parameters from the TOC has at least been fetched
         once"""
